@@ -1310,3 +1310,77 @@ add("E-dfg-14-tail-read-in-place-through-helper-uint64-offset", ["C11"], "*", _f
     note="the C11d seeded change with the helper's offset parameter typed uint64: behaviour preserving")
 from .mutants import refactor_variants as _refactor_variants
 CORPUS.extend(_refactor_variants())
+
+# ---------------------------------------------------------------------------
+# round 8: additive methods (copy / clear), parameter rebinding, keep-alive registries, keyword call sites
+# ---------------------------------------------------------------------------
+_HH_COPY_CLEAR_OK = (
+    "    def copy(self):\n"
+    "        new_hh = HeavyHitters(**self.args)\n"
+    "        np.copyto(new_hh.lhh, self.lhh)\n"
+    "        np.copyto(new_hh.lhh_count, self.lhh_count)\n"
+    "        np.copyto(new_hh.key_lens, self.key_lens)\n"
+    "        np.copyto(new_hh.n_added_records, self.n_added_records)\n"
+    "        new_hh.candidate_set = self.candidate_set.copy()\n"
+    "        new_hh.n_added_sort = self.n_added_sort\n"
+    "        new_hh.threshold_sort = self.threshold_sort\n"
+    "        return new_hh\n\n"
+    "    def clear(self) -> None:\n"
+    "        self.lhh[:, :, :] = 0\n"
+    "        self.lhh_count[:, :] = 0\n"
+    "        self.key_lens[:, :] = 0\n"
+    "        self.n_added_records[:] = 0\n"
+    "        self.candidate_set = Counter()\n"
+    "        self.n_added_sort = 0\n"
+    "        self.threshold_sort = np.uint32(0)\n\n")
+_GETITEM = "    def __getitem__(self, key: bytes) -> int:\n"
+add("E-mutators-01-copy-and-clear-added", ["C13", "C04", "C03", "C10", "C16"], "heavyhitters", _GETITEM, _HH_COPY_CLEAR_OK + _GETITEM, kind="E",
+    note="additive copy()/clear(): the copy gets tables and cache together, clear resets tables, counters and cache together")
+add("mutators-05-clear-forgets-the-cache", ["C13"], "heavyhitters", _GETITEM,
+    _HH_COPY_CLEAR_OK.replace("        self.candidate_set = Counter()\n        self.n_added_sort = 0\n        self.threshold_sort = np.uint32(0)\n", "") + _GETITEM,
+    rules=["mutators"], note="clear() zeroes the tables but keeps the old candidate set: query() after clear()+re-adding the same number of keys answers from the old cache")
+add("E-mutators-06-copy-without-cache", ["C13", "C04"], "heavyhitters", _GETITEM,
+    _HH_COPY_CLEAR_OK.replace("        new_hh.candidate_set = self.candidate_set.copy()\n        new_hh.n_added_sort = self.n_added_sort\n        new_hh.threshold_sort = self.threshold_sort\n", "") + _GETITEM,
+    kind="E", note="copy() hands a fresh object all four tables (n_added with them) and leaves its constructor cache (n_added_sort = 0): the first query is a cache miss, or n_added is 0 and the empty cache is right")
+add("mutators-08-copy-without-counters-and-cache", ["C13"], "heavyhitters", _GETITEM,
+    _HH_COPY_CLEAR_OK.replace("        new_hh.candidate_set = self.candidate_set.copy()\n        new_hh.n_added_sort = self.n_added_sort\n        new_hh.threshold_sort = self.threshold_sort\n", "")
+    .replace("        np.copyto(new_hh.n_added_records, self.n_added_records)\n", "") + _GETITEM,
+    rules=["mutators"], note="the copy holds keys but n_added() == 0 == n_added_sort: its query() serves the constructor's empty candidate set")
+add("mutators-07-clear-keeps-n-added-sort", ["C13"], "heavyhitters", _GETITEM,
+    _HH_COPY_CLEAR_OK.replace("        self.n_added_sort = 0\n", "") + _GETITEM,
+    rules=["mutators"], kind="U", note="clear() empties the candidate set but keeps n_added_sort: after re-adding exactly as many keys the empty set is served (undecided or violation both acceptable; silent is not)")
+add("ctor-rebind-01-falsy-default-log16", ["C15"], "countmin",
+    "        if width <= 0:\n            raise ValueError(f\"{width=:}. Must be greater than 0\")\n        if depth <= 0:\n            raise ValueError(f\"{depth=:}. Must be greater than 0\")\n        if num_reserved >= 65535:",
+    "        num_reserved = num_reserved or 1023\n        if width <= 0:\n            raise ValueError(f\"{width=:}. Must be greater than 0\")\n        if depth <= 0:\n            raise ValueError(f\"{depth=:}. Must be greater than 0\")\n        if num_reserved >= 65535:",
+    rules=["ctor-attr"], note="num_reserved=0 silently becomes 1023: a sketch requested with 0 merges with default sketches")
+add("E-ctor-rebind-02-none-default-log16", ALL_PROPS if False else ["C15", "C10", "C16", "C08", "C06", "C20"], "countmin",
+    "        if width <= 0:\n            raise ValueError(f\"{width=:}. Must be greater than 0\")\n        if depth <= 0:\n            raise ValueError(f\"{depth=:}. Must be greater than 0\")\n        if num_reserved >= 65535:",
+    "        if num_reserved is None:\n            num_reserved = 1023\n        if width <= 0:\n            raise ValueError(f\"{width=:}. Must be greater than 0\")\n        if depth <= 0:\n            raise ValueError(f\"{depth=:}. Must be greater than 0\")\n        if num_reserved >= 65535:",
+    kind="E", note="resolving a None default by an `is None` test replaces no legal value")
+add("E-ctor-rebind-03-int-conversion", ["C15", "C10", "C16", "C08", "C06", "C20"], "countmin",
+    "        if width <= 0:\n            raise ValueError(f\"{width=:}. Must be greater than 0\")\n        if depth <= 0:\n            raise ValueError(f\"{depth=:}. Must be greater than 0\")\n        if num_reserved >= 65535:",
+    "        num_reserved = int(num_reserved)\n        if width <= 0:\n            raise ValueError(f\"{width=:}. Must be greater than 0\")\n        if depth <= 0:\n            raise ValueError(f\"{depth=:}. Must be greater than 0\")\n        if num_reserved >= 65535:",
+    kind="E")
+add("owner-keepalive-01-atexit-bound-method", ["C16", "C08"], "heavyhitters",
+    "        self.candidate_set = Counter()\n        self.n_added_sort = 0\n",
+    "        atexit.register(self.__del__)\n        self.candidate_set = Counter()\n        self.n_added_sort = 0\n",
+    rules=["owner"], note="atexit keeps a bound method, hence the sketch, alive until interpreter exit: dropping the owner no longer releases the segment")
+add("owner-keepalive-02-finalize-lambda", ["C16"], "countmin",
+    "        self.uint_maxval = np.uint32(2**32 - 1)\n",
+    "        self.uint_maxval = np.uint32(2**32 - 1)\n        self._fin = weakref.finalize(self, lambda: self.__del__())\n",
+    rules=["owner"])
+add("E-owner-keepalive-03-finalize-on-shm-name", ["C16", "C08"], "countmin",
+    "        self.uint_maxval = np.uint32(2**32 - 1)\n",
+    "        self.uint_maxval = np.uint32(2**32 - 1)\n        self._fin = weakref.finalize(self, print, \"sketch dropped\")\n",
+    kind="E", note="a finalizer that holds no reference to the sketch keeps nothing alive")
+add("E-kwcalls-01-update-delegates-by-keyword", ["C12", "C01", "C05", "C03"], "countmin",
+    "            for key, value in keys.items():\n                self.add(key, value)\n        else:\n            for key in keys:\n                self.add(key)\n",
+    "            for key, value in keys.items():\n                self.add(key=key, value=value)\n        else:\n            for key in keys:\n                self.add(key=key)\n",
+    kind="E")
+add("kwcalls-02-update-delegates-swapped-keywords", ["C12"], "countmin",
+    "            for key, value in keys.items():\n                self.add(key, value)\n",
+    "            for key, value in keys.items():\n                self.add(value=1, key=key)\n", rules=["deleg", "value-fwd"])
+add("mergetree-11-odd-tail-merged-with-itself", ["C08", "C02", "C03", "C19"], "helpers",
+    "        for i in range(n_to_merge // 2):\n            sketch1 = (sketch_type, sketch_args, sketch_array[i * 2].shm.name)\n            sketch2 = (sketch_type, sketch_args, sketch_array[i * 2 + 1].shm.name)\n",
+    "        for i in range(0, n_to_merge, 2):\n            j = min(i + 1, n_to_merge - 1)\n            sketch1 = (sketch_type, sketch_args, sketch_array[i].shm.name)\n            sketch2 = (sketch_type, sketch_args, sketch_array[j].shm.name)\n",
+    rules=["mergetree"])
